@@ -198,7 +198,9 @@ def _include(region):
     return bool(dict.get(region.meta, 'include', True))
 
 
-_OPF = {'and_': np.logical_and, 'or_': np.logical_or, 'xor': np.logical_xor}
+def _op_logic(op):
+    from vmon import spec
+    return spec.op_logic(op)
 
 
 def shape_member(region, px, py):
@@ -206,7 +208,7 @@ def shape_member(region, px, py):
     if _cls(region) == 'CompoundPixelRegion':
         a, da = shape_member(region.region1, px, py)
         b, db = shape_member(region.region2, px, py)
-        return _OPF[region.operator.__name__](a, b), da & db
+        return _op_logic(region.operator)(a, b), da & db
     m, band = shape_margin(region, px, py)
     return m > 0, np.abs(m) > band
 
@@ -218,7 +220,7 @@ def contains_member(region, px, py):
     if _cls(region) == 'CompoundPixelRegion':
         a, da = contains_member(region.region1, px, py)
         b, db = contains_member(region.region2, px, py)
-        r = _OPF[region.operator.__name__](a, b)
+        r = _op_logic(region.operator)(a, b)
         if not _include(region):
             r = np.logical_not(r)
         return r, da & db
